@@ -21,7 +21,7 @@ struct Cursor {
 
     int depth() const { int d = array_root ? 1 : 0; for (auto &f : st) if (f.c->t == V_OBJ) d++; return d; }
     bool enabled(const Op &o) const {
-        if (o.code == M_RESTART) return entered && !wrong_type_end;     // a restart in the middle of (or after) a traversal
+        if (o.code == M_RESTART) return entered;     // a restart in the middle of (or after) a traversal, also after a WRONG_TYPE error (every restart clears it)
         if (done) return false;
         switch (o.code) {
             case M_ENTER: return !entered || (!st.empty() && st.back().pending);
@@ -75,6 +75,7 @@ struct NavRun {
     Trace tr; Sink sink; PSession ps;
     Node root; Cursor cur;
     std::string P;       // clause prefix = owning property
+    Block xw_blk, xw_dest; binson_writer *xw = nullptr; Bytes xw_expect;      // long-lived writer (C11)
     NavRun(const Plan &p, const ExecCtx &c, Result &r) : plan(p), ctx(c), res(r), ps(tr, sink, r.cnt) {}
 
     void fail(const char *what, const std::string &d) { sink.fail(P + "." + what, d); }
@@ -173,7 +174,7 @@ struct NavRun {
                     default: o = real(P_TO_STRING_NULL, 7); if (o.ret || o.size_out == 0) fail("restart.to_string", "to_string(NULL) did not report a size for a valid document in the middle of a traversal"); break;
                 }
                 no_error(o, "restart");
-                cur.st.clear(); cur.entered = false; cur.done = false; cur.have_last = false;
+                cur.st.clear(); cur.entered = false; cur.done = false; cur.have_last = false; cur.wrong_type_end = false;
                 if (!sink.failed()) check_depth();
                 cur.skipped_or_early++;
                 break;
@@ -266,6 +267,26 @@ struct NavRun {
                         if (o.err != 0 || o.used != used0) fail("raw.scalar_changed", fmt("get_raw on a scalar changed the parser (err=%s cursor %zu->%zu)", err_name(o.err), used0, o.used));
                     }
                 } else {
+                    if (xw && (op.a % 8) < 3) {
+                        // append to the long-lived writer (always large enough)
+                        Outcome before = real(P_DEPTH);
+                        size_t used0 = before.used;
+                        Outcome o = real(P_TO_WRITER, 0, Bytes(), 1);
+                        if (cont) {
+                            xw_expect.insert(xw_expect.end(), plan.doc.begin() + (long)n->tok, plan.doc.begin() + (long)(n->tok + n->tok_len));
+                            if (!o.ret) fail("towriter.result", fmt("parser_to_writer into a shared writer with room returned false (%s)", o.text.c_str()));
+                            else if (o.size_out != xw_expect.size() || memcmp(xw_dest.p, xw_expect.data(), xw_expect.size()) != 0) fail("towriter.bytes", fmt("shared writer holds %zu bytes, expected the %zu bytes of the containers appended so far", o.size_out, xw_expect.size()));
+                            no_error(o, "to_writer");
+                            if (!sink.failed() && o.used != n->end_off() + 1) fail("towriter.cursor", fmt("cursor at %zu after parser_to_writer, container ends at %zu", o.used, n->end_off()));
+                            f.pending = false; f.pos = -1; bump(res.cnt, "nav.raw_container"); cur.skipped_or_early++;
+                        } else {
+                            if (o.ret) fail("towriter.scalar_true", "parser_to_writer returned true on a scalar value");
+                            if (o.err != 0 || o.used != used0 || o.size_out != xw_expect.size() || o.text != "werr=NONE shared-writer") fail("towriter.scalar_changed", fmt("parser_to_writer on a scalar changed something (err=%s cursor %zu->%zu counter=%zu %s)", err_name(o.err), used0, o.used, o.size_out, o.text.c_str()));
+                            bump(res.cnt, "nav.raw_scalar");
+                        }
+                        if (!sink.failed()) { check_depth(); if (!cont) observe_current(); }
+                        break;
+                    }
                     size_t capn = 8; bool enough = true;
                     if (cont) {
                         switch (op.a % 8) {      // the writer may be (nearly) full: C04's contract then applies to the appended piece
@@ -331,11 +352,35 @@ struct NavRun {
         ps.setup(plan.max_depth, plan.prefill, plan.doc, plan.root != 0);
         ps.guard_lookups = false;       // the model only issues lookups inside object frames
         ps.use_cb = !plan.P("nocb");
+        if (plan.P("extw")) {
+            size_t capn = plan.doc.size() * 8 + 256;
+            xw_blk = block_alloc(sizeof(binson_writer), 0); xw_dest = block_alloc(capn, 0); memset(xw_dest.p, 0xA5, capn);
+            xw = (binson_writer *)xw_blk.p; binson_writer_init(xw, xw_dest.p, capn);
+            ps.ext_writer = xw;
+            if (plan.P("extw") == 2) {
+                // another parser, over a damaged message, fails inside to_writer on the same writer first: nothing was appended,
+                // everything written so far fits, so the writer must still be usable for the valid message afterwards
+                static const uint8_t dmg[] = {0x40, 0x14, 0x01, 0x61, 0x40, 0x14, 0x01, 0x62, 0x14, 0x7f, 0x41, 0x41};
+                Trace t2; Sink s2; s2.own = "~"; std::map<std::string, uint64_t> c2;
+                PSession q(t2, s2, c2);
+                q.setup(4, 0, Bytes(dmg, dmg + sizeof dmg), false);
+                q.ext_writer = xw;
+                Op a; a.code = P_INIT_OBJ; a.a = -1; q.call(a);
+                a = Op(); a.code = P_ENTER_OBJ; q.call(a);
+                a = Op(); a.code = P_NEXT; q.call(a);
+                a = Op(); a.code = P_TO_WRITER; a.c = 1; Outcome f = q.call(a);
+                bump(res.cnt, "probe.foreign_to_writer_failure_on_shared_writer");
+                uint32_t we = 0; memcpy(&we, &xw->error_flags, 4);
+                if (f.ret || binson_writer_get_counter(xw) != 0) fail("towriter.foreign_failure", "parser_to_writer of a damaged container appended something / returned true");
+                else if (we != 0) fail("towriter.writer_poisoned", fmt("a parser_to_writer that failed on the parser side and appended nothing left the writer in error %s although everything written so far fits", err_name(we)));
+            }
+        }
         Op init; init.code = plan.root ? P_INIT_ARR : P_INIT_OBJ; init.a = -1;
         Outcome o = ps.call(init);
         if (!o.ret) fail("init", fmt("init rejected a valid document (%s)", err_name(o.err)));
         for (size_t i = 0; i < plan.ops.size() && !sink.failed() && !ps.dead; i++) step(plan.ops[i]);
         ps.end_checks();
+        block_free(xw_blk); block_free(xw_dest);
         res.clause = sink.clause; res.detail = sink.detail;
         res.trace_hash = tr.h; res.steps += ps.steps; res.calls = ps.calls;
         res.nontrivial = cur.skipped_or_early > 0;
@@ -373,7 +418,7 @@ struct GenCursor {       // lightweight replica of the model transitions, withou
                 break;
             }
             case M_RAW: case M_TO_WRITER: { Frame &f = cur.st.back(); if (f.pending) { f.pending = false; f.pos = -1; } break; }
-            case M_RESTART: cur.st.clear(); cur.entered = false; cur.done = false; cur.have_last = false; break;
+            case M_RESTART: cur.st.clear(); cur.entered = false; cur.done = false; cur.have_last = false; cur.wrong_type_end = false; break;
             default: break;
         }
     }
@@ -438,15 +483,16 @@ Plan nav_generate(uint64_t base, const std::string &prop, uint64_t index, int ti
     int w_field = 0, w_ens = 0, w_raw = 0, w_tw = 0;
     if (prop == "C07") { w_field = 30 + (int)ro.below(50); w_ens = 8 + (int)ro.below(10); w_raw = (int)ro.below(6); w_tw = (int)ro.below(4); }
     else if (prop == "C11") { w_raw = 15 + (int)ro.below(30); w_tw = 10 + (int)ro.below(25); w_field = (int)ro.below(15); }
-    else if (prop == "C06") { w_raw = (int)ro.below(12); }
+    else if (prop == "C06") { w_raw = (int)ro.below(12); w_field = (int)ro.below(8); }     // a lookup may also be what returns the container that is entered next
     else { w_field = 15; w_ens = 4; w_raw = 8; w_tw = 6; }   // mixed corpus (C16 / C18 / C17 reuse this engine)
     if (prop != "C16" && ro.chance(1, 5)) p.par["nocb"] = 1;      // an application without a token callback
+    if (prop == "C11" && ro.chance(1, 2)) p.par["extw"] = 1 + (int64_t)ro.below(2);
     int nops = 1 + (int)ro.below(tier ? 120 : 80);
     if (k.wide) { nops = k.wide + (int)ro.below(200); w_next += 200; }     // long enough to walk across the wide container
     GenCursor g; g.root = &root; g.cur.root = &root; g.cur.array_root = p.root != 0;
     std::vector<Node> dummy;
-    int w_restart = ro.chance(1, 3) ? 2 + (int)ro.below(8) : 0;        // a third of the histories restart the parser now and then
-    for (int i = 0; i < nops && !g.cur.wrong_type_end; i++) {
+    int w_restart = ro.chance(1, 2) ? 3 + (int)ro.below(12) : 0;       // half of the histories restart the parser now and then
+    for (int i = 0; i < nops; i++) {
         struct Cand { int code; int w; } cands[] = {{M_ENTER, w_enter}, {M_NEXT, w_next}, {M_LEAVE, w_leave}, {M_OBSERVE, w_obs}, {M_STREQ, w_streq},
                                                     {M_FIELD, w_field}, {M_FIELD_ENS, w_ens}, {M_RAW, w_raw}, {M_TO_WRITER, w_tw}, {M_RESTART, w_restart}};
         int total = 0;
@@ -532,10 +578,13 @@ void nav_shrink(const Plan &p, std::vector<Plan> &out) {
     if (p.prefill) { Plan q = p; q.prefill = 0; out.push_back(q); }
 }
 
-bool nav_owned(const Plan &p) {
+bool nav_owned(const Plan &p, const std::string &clause) {
     auto has = [&](std::initializer_list<int> codes) { for (auto &o : p.ops) for (int c : codes) if (o.code == c) return true; return false; };
-    if (p.prop == "C07") return has({M_FIELD, M_FIELD_ENS});
-    if (p.prop == "C11") return has({M_RAW, M_TO_WRITER});
+    auto in = [&](const char *s) { return clause.find(s) != std::string::npos; };
+    // a clause raised BY a lookup / raw operation belongs to that property whatever else is broken; a navigation clause met in
+    // such a history belongs to it only if the minimised history still needs one of its operations
+    if (p.prop == "C07") return in(".lookup.") || in(".ensure.") || has({M_FIELD, M_FIELD_ENS});
+    if (p.prop == "C11") return in(".raw.") || in(".towriter.") || has({M_RAW, M_TO_WRITER});
     return true;
 }
 
